@@ -575,6 +575,15 @@ def check_executor_aggregates(ctx, num=7):
                 iv = g1.target.id
                 src = norm.U(g1.iter)
                 ok = (src == "self.pools" and norm.U(g2.iter) == f"{iv}.{attr}") or (src in ("range(self.num_pools)", "range(len(self.pools))") and norm.U(g2.iter) == f"self.pools[{iv}].{attr}")
+        elif len(rs) == 1 and op == "concat" and isinstance(rs[0].value, ast.Call) and norm.is_name(rs[0].value.func, "list") and len(rs[0].value.args) == 1 \
+                and isinstance(rs[0].value.args[0], ast.Call) and norm.U(rs[0].value.args[0].func) in ("chain.from_iterable", "itertools.chain.from_iterable") \
+                and len(rs[0].value.args[0].args) == 1 and isinstance(rs[0].value.args[0].args[0], (ast.GeneratorExp, ast.ListComp)):
+            # list(chain.from_iterable(<one list per pool, in pool order>))
+            a0 = rs[0].value.args[0].args[0]
+            if len(a0.generators) == 1 and not a0.generators[0].ifs and isinstance(a0.generators[0].target, ast.Name):
+                iv = a0.generators[0].target.id
+                src = norm.U(a0.generators[0].iter)
+                ok = (src == "self.pools" and norm.U(a0.elt) == f"{iv}.{attr}") or (src in ("range(self.num_pools)", "range(len(self.pools))") and norm.U(a0.elt) == f"self.pools[{iv}].{attr}")
         ctx.ob(num, "K6", f"Executor.{meth}() aggregates {attr} over all pools", ok, f, rs[0] if rs else f.node, detail=d)
     # the per-pool statistics start empty
     ri = P.fn(RP, "ResourcePool.__init__")
